@@ -40,7 +40,22 @@ type Prop struct {
 	// Timeout per case (default 20s). A timed-out case yields observation "HANG".
 	Timeout time.Duration
 	Rule    string
+	// GaveUp (optional) tells an observation in which the DRIVER gave up on a case — its own time limit ran out, its
+	// worker process died without a message of the Go runtime — from one that says what the code under test did. A
+	// time limit is the driver's, not the property's: on a machine that runs twenty checks at once a case that needs
+	// 4 s alone has been seen to need more than 25 s. Such a case is therefore run again ALONE (nothing else of this
+	// driver in flight) under RunAlone's larger limit, and the observation of that run is the one that counts: a case
+	// that really does not end (a deadlock, a loop without end) gives up again and is reported exactly as before.
+	GaveUp func(obs string) bool
+	// RunAlone (with GaveUp) executes one input with the larger time limit AloneTimeout (default 5 x Timeout).
+	RunAlone     func(input string) string
+	AloneTimeout time.Duration
 }
+
+// maxAlone bounds the second runs of one driver run: a change that makes hundreds of cases hang must not turn a quick
+// check into hours. The first case that gives up again ends the second runs (it is the confirmed failing input); what has
+// not been run again keeps its first observation and is reported with it.
+const maxAlone = 8
 
 // RepoDir is the pandora source tree the binary was built from (for drivers that read files or build main.go).
 var RepoDir = "/repo"
@@ -98,6 +113,30 @@ func Main(p *Prop) {
 	close(ch)
 	wg.Wait()
 
+	// second run, alone, of the cases on which the driver (not the code under test) gave up
+	var again []any
+	if p.GaveUp != nil && p.RunAlone != nil {
+		alone := &Prop{Run: p.RunAlone}
+		at := p.AloneTimeout
+		if at == 0 {
+			at = 5 * timeout
+		}
+		for i := range inputs {
+			if len(again) >= maxAlone {
+				break
+			}
+			if !p.GaveUp(obs[i]) {
+				continue
+			}
+			first := obs[i]
+			obs[i] = runGuarded(alone, inputs[i], at)
+			again = append(again, map[string]string{"input": Trunc(inputs[i], 400), "first": Trunc(first, 200), "alone": Trunc(obs[i], 200)})
+			if p.GaveUp(obs[i]) {
+				break
+			}
+		}
+	}
+
 	_ = os.MkdirAll(*out, 0o755)
 	f, err := os.Create(filepath.Join(*out, "cases.tsv"))
 	if err != nil {
@@ -138,6 +177,9 @@ func Main(p *Prop) {
 		"rule":                p.Rule,
 		"samples":             samples,
 		"distribution":        classes,
+	}
+	if len(again) > 0 {
+		stats["run_again_alone"] = again
 	}
 	b, _ := json.MarshalIndent(stats, "", " ")
 	_ = os.WriteFile(filepath.Join(*out, "stats.json"), b, 0o644)
